@@ -87,10 +87,25 @@ inline int main_loop(int argc, char** argv, const char* container, RunFn run)
   return 0;
 }
 
+// Element type with an owned heap cell and a live-instance counter: wrong construction / destruction / aliasing inside a container
+// shows up as an ASan report or as a non-zero count after the container is gone.  Converts to int for printing and comparison.
+struct Tracked {
+  static long& live() { static long n = 0; return n; }
+  int* p;
+  Tracked() : p(new int(0)) { ++live(); }
+  Tracked(int v) : p(new int(v)) { ++live(); }
+  Tracked(const Tracked& o) : p(new int(*o.p)) { ++live(); }
+  Tracked& operator=(const Tracked& o) { int v = *o.p; *p = v; return *this; }
+  ~Tracked() { --live(); delete p; p = nullptr; }
+  operator int() const { return *p; }
+};
+// to be called when all containers of a case are destroyed
+inline void leak_step() { if (Tracked::live() != 0) { step_done("LEAK(" + std::to_string(Tracked::live()) + ")"); Tracked::live() = 0; } }
+
 template<class It> std::string seq_str(It b, It e)
 {
   std::string r; bool f = true;
-  for (; b != e; ++b) { if (!f) r += ' '; f = false; r += std::to_string(*b); }
+  for (; b != e; ++b) { if (!f) r += ' '; f = false; r += std::to_string((int) *b); }
   return r;
 }
 } // namespace c11
